@@ -44,7 +44,9 @@ BASE = {
         {"body": [["global.get", 4], ["i32.const", 0], ["i32.load", 2], ["i32.add"]]},            # 3
         {"body": [["i32.const", 33]]},                                                            # 4  unreferenced
         {"body": [["call", 2], ["global.get", 6], ["i32.add"], ["memory.size", 1], ["i32.add"]], "nlocals": 2},  # 5
+        {"body": [["call", 3], ["drop"]], "void": True},                                                     # 6  the start function
     ],
+    "start": 6,
     # memory index space: 0 imx (unreferenced), 1 im0, 2.. locals
     "memories": [{"min": 3}, {"min": 4}],          # 2 (used), 3 (unreferenced)
     "tables": [{"min": 8, "init": None}, {"min": 8, "init": [["ref.func", 3]]}],
@@ -65,7 +67,10 @@ BASE = {
         {"mem": 2, "offset": [["global.get", 2]], "bytes": [4, 5]},
     ],
     # custom sections at three positions (C28): before the first section, before and after the name section
-    "customs": {"early": [["cs_early", [1, 2, 3]]], "mid": [["cs_mid", []], ["producers", [0]]], "late": [["cs_late", [9, 9]], ["cs_mid", [7]]]},
+    # (incl. names wasmparser classifies as known custom kinds: they must survive like any other section)
+    "customs": {"early": [["cs_early", [1, 2, 3]], ["dylink.0", [1, 0]]],
+                "mid": [["cs_mid", []], ["producers", [0]], ["target_features", [0]]],
+                "late": [["cs_late", [9, 9]], ["cs_mid", [7]], ["linking", [2]], ["component-name", [0]]]},
     # a complete name section (C29): functions, globals, locals
     "names": {
         "funcs": [[0, "nm_ifx"], [1, "nm_if0"], [2, "nm_f2"], [3, "nm_f3"], [4, "nm_f4"], [5, "nm_f5"]],
@@ -90,6 +95,7 @@ class Linked:
         self.imports = []                          # (kind, name)
         self.names = {"F": {}, "G": {}, "L": {}}   # key -> name ; (function key, local index) -> name
         self.customs = []                          # [name, bytes] in order (name section excluded)
+        self.start = None                          # key of the start function
 
 
 def link_decoded(d):
@@ -125,6 +131,7 @@ def link_decoded(d):
     for t in d["tables"]:
         L.tables.append({"init": t["init"]})
     L.customs = [[c[0], list(c[1])] for c in d.get("customs", [])]
+    L.start = d.get("start")
     nm = d.get("names") or {}
     for i, n in nm.get("funcs", []): L.names["F"][i] = n
     for i, n in nm.get("globals", []): L.names["G"][i] = n
@@ -156,7 +163,7 @@ class RefModel:
             L.G[lab] = {"init": g["init"], "mut": g.get("mut", False), "_raw": True}; L.order["G"].append(lab); self.base_key["G"].append(lab)
         for f in base["funcs"]:
             lab = "F:b%d" % len(self.base_key["F"])
-            L.F[lab] = {"body": f["body"] + [["end"]], "_raw": True, "locals": tuple(["i32"] * f.get("nlocals", 0)), "sig": ((), ("i32",))}; L.order["F"].append(lab); self.base_key["F"].append(lab)
+            L.F[lab] = {"body": f["body"] + [["end"]], "_raw": True, "locals": tuple(["i32"] * f.get("nlocals", 0)), "sig": ((), () if f.get("void") else ("i32",))}; L.order["F"].append(lab); self.base_key["F"].append(lab)
         for m in base["memories"]:
             lab = "M:b%d" % len(self.base_key["M"])
             L.M[lab] = {"min": m["min"]}; L.order["M"].append(lab); self.base_key["M"].append(lab)
@@ -176,6 +183,7 @@ class RefModel:
             L.elems.append({"offset": self.base_toks(e["offset"]), "items": [self.base_toks(i) for i in items]})
         for t in base["tables"]:
             L.tables.append({"init": self.base_toks(t["init"]) if t["init"] else None})
+        L.start = self.base_key["F"][base["start"]] if base.get("start") is not None else None
         cs = base.get("customs") or {}
         L.customs = [[c[0], list(c[1])] for part in ("early", "mid", "late") for c in cs.get(part, [])]
         nm = base.get("names") or {}
@@ -328,6 +336,8 @@ class RefModel:
             for lab in dead:
                 tab.pop(lab, None)
             L.order[k] = [x for x in L.order[k] if x not in dead]
+        if L.start in dead:
+            L.start = None          # (deleting the start function drops the start section: documented behaviour, a warning)
         for lab in dead:
             L.names["F"].pop(lab, None); L.names["G"].pop(lab, None)
         L.names["L"] = {k: v for k, v in L.names["L"].items() if k[0] not in dead}
@@ -383,7 +393,13 @@ class Sem:
         f = self.L.F.get(key)
         if f is None:
             raise Unsupported("reference to a function that does not exist: %r" % (key,))
-        v = self.d.var("if:" + f["import"]) if "import" in f else self.expr(f["body"], depth + 1)
+        if "import" in f:
+            v = self.d.var("if:" + f["import"])
+        else:
+            body = [t for t in f["body"] if t[0] != "end"]
+            if body and body[-1][0] == "drop":
+                body = body[:-1]        # a () -> () function: observed through the value it computes and drops
+            v = self.expr(body, depth + 1)
         self.fc[key] = v
         return v
 
@@ -434,6 +450,9 @@ class Sem:
                 V["name-local:" + n] = self.fval(fk)
         S["count.globals"] = len(L.G); S["count.funcs"] = len(L.F); S["count.memories"] = len(L.M)
         S["custom-sections"] = tuple((c[0], tuple(c[1])) for c in L.customs)
+        S["has-start"] = L.start is not None
+        if L.start is not None:
+            V["start"] = self.fval(L.start)
         S["imports"] = tuple(sorted(L.imports))
         S["exports"] = tuple(sorted((e["name"], e["kind"]) for e in L.exports))
         for e in L.exports:
@@ -519,6 +538,7 @@ def menu(kind):
         creator("inject call(base import)", lambda k, c: {"op": "inject", "func": B(4), "at": 0, "mode": "after", "ops": [["call", B(1)], ["i32.add"]]}, None)
         creator("inject call(earlier)", lambda k, c: {"op": "inject", "func": B(4), "at": 0, "mode": "after", "ops": [["call", R(c["F"][-1])], ["i32.add"]]} if c["F"] else None, None)
     if kind in ("F", "DEL"):
+        creator("delete_func(start function)", lambda k, c: {"op": "delete_func", "id": B(6)}, None)
         creator("delete_func(unreferenced base local)", lambda k, c: {"op": "delete_func", "id": B(4)}, None)
         creator("delete_func(unreferenced base import)", lambda k, c: {"op": "delete_func", "id": B(0)}, None)
         creator("delete_func(earlier, unobserved)", lambda k, c: {"op": "delete_func", "id": R(c["Fq"][-1])} if c["Fq"] else None, None)
